@@ -133,7 +133,7 @@ class BoundedCtx:
                                          {'check': self.name, 'input': input_}))
 
 
-class JobTimeout(Exception):
+class JobTimeout(BaseException):     # not an Exception: harness code that catches Exception must not swallow it
     pass
 
 
@@ -474,7 +474,7 @@ def write_lock(props: list[str], repo: str) -> None:
         json.dump(lock, f, indent=1, sort_keys=True)
 
 
-def selftest(prop: str) -> int:
+def selftest(prop: str, only: str = '') -> int:
     """Apply each catalogued mutation of the property's sidecar to a scratch copy of /repo/src and run the check
     against it: a breaking mutation must give exit 1 naming the expected obligation/check, a harmless one exit 0."""
     import shutil
@@ -484,6 +484,8 @@ def selftest(prop: str) -> int:
     muts = [(m, True) for m in getattr(mod, 'MUTATIONS', [])] + [(m, False) for m in getattr(mod, 'HARMLESS', [])]
     bad = 0
     for m, breaking in muts:
+        if only and only not in m['name']:
+            continue
         d = tempfile.mkdtemp(prefix=f'selftest_{prop}_')
         try:
             shutil.copytree('/repo/src', os.path.join(d, 'src'), ignore=shutil.ignore_patterns('__pycache__'))
@@ -556,7 +558,7 @@ def main(argv=None) -> int:
             write_lock(props, args.repo)
             return 0
         if args.selftest:
-            return selftest(args.prop)
+            return selftest(args.prop, args.only or "")
         if args.replay:
             return replay(args.prop, args.replay, args.repo)
         return run_property(args.prop, args.tier, seed, args.repo, args.only)
